@@ -171,6 +171,7 @@ func TestC16(t *testing.T) {
 	rapid.Check(t, func(t *rapid.T) {
 		cs := genCase(t, genOpts{Known: st.IsKnown, Exclude: st.Exclude})
 		pbt.MarkCurrent("C16", cs)
+		races0 := raceErrors()
 		res := runC16(cs, rapidPick(t))
 		if res.ProvisionErr != nil {
 			t.Fatalf("provision: %v", res.ProvisionErr)
@@ -184,8 +185,27 @@ func TestC16(t *testing.T) {
 		if nontrivial && st.WantSample() {
 			st.Sample(map[string]any{"case": cs, "calls": reportsOf(res), "history_tail": historyLines(tail(res.Events, 40))})
 		}
-		reportAll(t, st, res, oracle(res))
+		vs := oracle(res)
+		if n := raceErrors() - races0; n > 0 {
+			// thorough tier (-race): the detector reported a data race while this case ran
+			vs = append(vs, lab.Violation{Prop: "C16", Key: keyDataRace(cs), Index: len(res.Events),
+				Detail: fmt.Sprintf("the race detector reported %d data race(s) while this case ran (stacks are in the test output)", n)})
+		}
+		reportAll(t, st, res, vs)
 	})
+}
+
+// keyDataRaceOther: two applies to DIFFERENT pipelines run in parallel by design (lock.go) and
+// meet in the unsynchronised instance maps of the pipeline/connector/processor services.
+const keyDataRaceOther = "C16/concurrent/different-pipelines/data-race-on-service-maps"
+
+func keyDataRace(cs *c16Case) string {
+	for _, rq := range cs.Reqs {
+		if rq.Twin != nil && rq.Twin.Other {
+			return keyDataRaceOther
+		}
+	}
+	return "C16/data-race-reported/" + cs.Lab.Engine
 }
 
 // TestReplayC16 re-runs a saved case (the schedule between boundary events is not
